@@ -147,6 +147,14 @@ class Module(nn.Module):
         for name, val in kwargs.items():
             if isinstance(val, int):
                 val = float(val)
+            # Remember the current value if a prior may reject the new one (a rejected assignment must not be stored)
+            prior_name = "_".join([name, "prior"])
+            old_value = None
+            if prior_name in self._priors:
+                if name in self._parameters or name in self._buffers:
+                    old_value = self.__getattr__(name).data.clone()
+                else:
+                    old_value = self._priors[prior_name][1](self).detach().clone()
             if "." in name:
                 module, name = self._get_module_and_name(name)
                 if isinstance(module, nn.ModuleList):
@@ -189,12 +197,16 @@ class Module(nn.Module):
                 raise AttributeError("Type {t} not valid for initializing parameter {p}".format(t=type(val), p=name))
 
             # Ensure value is contained in support of prior (if present)
-            prior_name = "_".join([name, "prior"])
             if prior_name in self._priors:
-                prior, closure, _ = self._priors[prior_name]
+                prior, closure, setting_closure = self._priors[prior_name]
                 try:
                     prior._validate_sample(closure(self))
                 except ValueError as e:
+                    # restore the previous value before rejecting the assignment
+                    if name in self._parameters or name in self._buffers:
+                        self.__getattr__(name).data.copy_(old_value)
+                    elif setting_closure is not None:
+                        setting_closure(self, old_value)
                     raise ValueError("Invalid input value for prior {}. Error:\n{}".format(prior_name, e))
 
         return self
